@@ -45,6 +45,13 @@ def htmlBytes (cfg : HtmlCfg) (v : RTable) : Bytes :=
     | some cells => htmlTr cfg (i + 1) "td" cells)) ++
   bytesOfString "  </tbody>\n</table>\n"
 
+/-- The row numbers the row-class generator is called with during one render, in call order
+    (what the harness's recording generator logs as `rc=`): 0 for the header row, then the 1-based
+    position of every non-separator row.  `Props/DriverObs.lean` proves this is `rowClassArgs`, the
+    list the C06 theorems speak about, and that it is empty-free, strictly increasing and bounded. -/
+def rowClassCalls (v : RTable) : List Nat :=
+  0 :: v.rows.zipIdx.filterMap (fun (r, i) => match r with | some _ => some (i + 1) | none => none)
+
 /-- `HTMLTable.RenderTo` after the callbacks pass (chunking is the template engine's; one chunk here) -/
 def renderHtml (cfg : HtmlCfg) (v : RTable) : Emit Unit := write (htmlBytes cfg v)
 
